@@ -374,6 +374,18 @@ def oracle(ctx, t, r, ever, desc):
         if not snap.bits_equal([t[-1, -1]], [D[-1, -1]]):
             bad('getitem-cell', 't[-1,-1]=%r, matrix says %r' %
                 (float(t[-1, -1]), float(D[-1, -1])))
+        a, b = -r.randint(1, n), -r.randint(1, m)
+        row = np.asarray(t[a, :].toarray()).reshape(-1)
+        col = np.asarray(t[:, b].toarray()).reshape(-1)
+        if not snap.bits_equal(row, D[a, :]):
+            bad('getitem-row', 't[%d,:]=%r, matrix says %r' %
+                (a, row.tolist(), D[a, :].tolist()))
+        if not snap.bits_equal(col, D[:, b]):
+            bad('getitem-column', 't[:,%d]=%r, matrix says %r' %
+                (b, col.tolist(), D[:, b].tolist()))
+        if not snap.bits_equal([t[a, b]], [D[a, b]]):
+            bad('getitem-cell', 't[%d,%d]=%r, matrix says %r' %
+                (a, b, float(t[a, b]), float(D[a, b])))
     if n and m:
         checks.append(c_indexing)
 
